@@ -317,6 +317,26 @@ def type_dispatch(repo):
     return False
 
 
+def ts_dispatch(repo):
+    """does the library select code by the thread_safe parameter anywhere but in the lock wrapper (if constexpr on it, comparisons
+    with thread_safe::no/yes, conditional types)?  Then the unsynchronised instantiation is different code and is analysed as well."""
+    import re
+    inc = os.path.join(repo, 'inc', 'cappuccino')
+    pat = re.compile(r'if\s+constexpr\s*\([^)]*thread_safe|thread_safe_type\s*[=!]=|[=!]=\s*thread_safe(_type|::)|conditional(_t)?\s*<[^;]*thread_safe|'
+                     r'is_same(_v)?\s*<[^;]*thread_safe')
+    try:
+        for f in sorted(os.listdir(inc)):
+            if not f.endswith('.hpp') or f == 'lock.hpp':
+                continue
+            src = open(os.path.join(inc, f), errors='replace').read()
+            src = re.sub(r'//[^\n]*|/\*.*?\*/', '', src, flags=re.S)
+            if pat.search(src):
+                return True
+    except OSError:
+        pass
+    return False
+
+
 def merge_instance(pid, res, repo, kw):
     from report import Result
     try:
@@ -348,6 +368,9 @@ def run(pid, tier, repo, replay=None):
         # code selected by traits of the value type: also analyse a value type with throwing, non-trivial copy / move operations
         if merge_instance(pid, res, repo, AWKWARD):
             res.counts['type_dispatch_instantiation'] = 1
+    if tier != 'thorough' and ts_dispatch(repo):
+        if merge_instance(pid, res, repo, dict(ts='no')):
+            res.counts['thread_safe_no_instantiation'] = 1
     if tier == 'thorough':
         thorough_extras(pid, res, repo)
     suppress_on_unknown(res)
